@@ -29,6 +29,12 @@ def split (s : JStr) : Option (JStr × JStr) :=
 /-- `ObjClassName::from_inner_class` -/
 def join (p i : JStr) : JStr := p ++ DOLLAR :: i
 
+/-- `ObjClassNameSlice::get_inner_class_parent`: the first half of `split` -/
+def innerParent (s : JStr) : Option JStr := (split s).map (·.1)
+
+/-- `ObjClassNameSlice::get_inner_class_name`: the second half of `split` -/
+def innerName (s : JStr) : Option JStr := (split s).map (·.2)
+
 /-- `Mappings::get_class_name` -/
 def getClassName (m : Mappings) (cls : JStr) (ns : Nat) : Option JStr :=
   match AList.lookup cls m.classes with
